@@ -13,6 +13,9 @@ CLAIMED = {
  "C07": ("one reconcile with several revisions in flight and an arbitrary non-negative int32 partition: no update delete below the partition, highest first, created pods carry the revision their ordinal calls for, OnDelete never restarts", "5/C07"),
  "C12": ("every status write of one reconcile from an arbitrary snapshot with arbitrary stored status/generation: counter bounds over int32 with wrap-around, observedGeneration, currentRevision rule, census at a quiescent step", "5/C12"),
  "C14": ("one Parallel reconcile from an arbitrary snapshot: all vacancies filled and all live condemned pods deleted in the same reconcile; at most one update delete", "5/C14"),
+ "C10": ("one sync(key) over every combination of pod owner x label match x name shape x terminating and of revision owner x labels x upgrade marker, with a cached set that may be stale w.r.t. the API: adopt/release patches, foreign objects never written or counted, cached objects frozen (engine-level write monitor)", "5/C10"),
+ "C11": ("one sync(key) with the pause annotation or a deletion timestamp raised in every explored state (orphans waiting, unhealthy pods, slots): empty write log when paused; no pod/claim write and no adoption when deleting", "5/C11"),
+ "C15": ("one sync(key) inside recover() for every spec the CRD admits within the modelled dimensions (unknown policy/strategy strings, rollingUpdate absent / without partition / arbitrary int32 partition, arbitrary history limit, stale status) times small pod populations incl. odd names and nil labels: no panic", "5/C15"),
 }
 NA = {}
 def main():
